@@ -245,6 +245,7 @@ def main() -> int:
         rep.inconclusive_because("the skip-log hook reported nothing at all (hook missing or REDUINO_VERIF not honoured)")
     # ---- (b) layout metamorphic
     lay_bases = [prog.generate((PROP, sd, "lay", i), "clean")["source"] for i in range(50 if t == "quick" else 700)]
+    lay_bases += corpus.string_scripts(rng_for(PROP, sd, "s"), 12 if t == "quick" else 120) + corpus.lcd_scripts(rng_for(PROP, sd, "l"), 4 if t == "quick" else 40)
     lay_bases += corpus.promotion_scripts(rng_for(PROP, sd, "p"), 10 if t == "quick" else 100) + corpus.device_scripts(rng_for(PROP, sd, "d"), 10 if t == "quick" else 100) + readme_examples()
     nvar = 8 if t == "quick" else 20
     for case, st, out in run_cases(case_layout, [(i, sd, s, nvar) for i, s in enumerate(lay_bases)]):
